@@ -154,6 +154,8 @@ def check_case(prop, sp, col, shard='corpus', cap=400):
                 where={'linked_partial_only': not (f['keys'] - c['keys']) and common.linked_partial_only(
                     sp, [x['assign'] for k in only_c for x in rk_dv.get(k, [{'assign': {}}])]),
                        'linked_full_nonzero_only': not (f['keys'] - c['keys']) and common.linked_full_nonzero_only(
+                    sp, [x['assign'] for k in only_c for x in rk_dv.get(k, [{'assign': {}}])]),
+                       'linked_mixed_only': not (f['keys'] - c['keys']) and common.linked_mixed_only(
                     sp, [x['assign'] for k in only_c for x in rk_dv.get(k, [{'assign': {}}])])})
     nontrivial = len(rk_dv) >= 2
     if nontrivial:
@@ -354,6 +356,8 @@ def run_encoder(prop, case, enc, emit, col, rk, rk_dv, rnd, cap):
                  where={'linked_partial_only': common.linked_partial_only(
                      sp, [x['assign'] for k in missing for x in rk_dv[k]]),
                         'linked_full_nonzero_only': common.linked_full_nonzero_only(
+                     sp, [x['assign'] for k in missing for x in rk_dv[k]]),
+                        'linked_mixed_only': common.linked_mixed_only(
                      sp, [x['assign'] for k in missing for x in rk_dv[k]])})
         # a vector that is valid on a fresh processor is returned unchanged by the used one
         b2 = case.rebuild()
